@@ -54,7 +54,7 @@ built three times because the manifestation of C05-3 depends on a per-instance
 hash order), C02 (the library's own `Braid::closure`), C16 (`map_coeffs` /
 `map_gens`), C08 (`reduced()` twice; wide two-term complexes for C08-2; transfer maps in some degrees only for C08-8), C03
 (signature of the known finding), C07 (`vectorize_euc` on boundaries, C07-4),
-C11 (huge sparse matrices, C11-6), C16 (`(index, exponent)` constructor, C16-6), C18 (successive `resolved_at`, C18-5), C19 (K # rho(K), C19-6), C20 (regrouping check and thick knots, C20-6), C14 (`Construct` step, C14-5), C06 (knot
+C11 (huge sparse matrices, C11-6; chains of up to 7000 rows with cycle-closing rows, C11-7), C16 (`(index, exponent)` constructor, C16-6), C18 (successive `resolved_at`, C18-5), C19 (K # rho(K), C19-6), C20 (regrouping check and thick knots, C20-6), C14 (`Construct` step, C14-5), C06 (knot
 diagrams with a smoothed crossing, C06-6), C12 (tree-shaped decompositions on >= 32
 columns, C12-7), C01 (composition route, C01-4).
 
